@@ -1,7 +1,7 @@
 package c02
 
-// Scope "many-materials": SplitOnUniqueMaterials on a strip whose every triangle has a material of
-// its own — 3, 255, 256, 257, 65535, 65536 and 65537 materials.  Every returned mesh must be
+// Scope "many-materials": SplitOnUniqueMaterials on a mesh whose every triangle has a material of
+// its own (odd triangles with vertices of their own, even ones sharing a vertex with the next even one) — 3, 255, 256, 257, 65535, 65536 and 65537 materials.  Every returned mesh must be
 // well-formed and the triangles must add up.  (Counts around the widths a per-vertex tag, a packed key
 // or an id table may be stored in; the small scopes have at most three materials.)
 
@@ -18,7 +18,8 @@ import (
 func (k checker) manyMaterials(n int) {
 	cs := Case{Kind: "many-materials", N: n}
 	scope := "ops/SplitOnUniqueMaterials/many-materials"
-	pos := make([]vector3.Float64, n+2)
+	// odd triangles have three vertices of their own, even ones share an edge with the next even one
+	pos := make([]vector3.Float64, 3*n+6)
 	for i := range pos {
 		pos[i] = vector3.New(float64(i), float64(i%2), 0.25*float64(i%5))
 	}
@@ -26,9 +27,9 @@ func (k checker) manyMaterials(n int) {
 	mats := make([]modeling.MeshMaterial, n)
 	for t := 0; t < n; t++ {
 		if t%2 == 0 {
-			idx = append(idx, t, t+1, t+2)
+			idx = append(idx, 3*t, 3*t+1, 3*t+6)
 		} else {
-			idx = append(idx, t+1, t, t+2)
+			idx = append(idx, 3*t+1, 3*t, 3*t+2)
 		}
 		mats[t] = modeling.MeshMaterial{PrimitiveCount: 1, Material: &modeling.Material{Name: fmt.Sprintf("m%d", t)}}
 	}
